@@ -1,4 +1,5 @@
 import ScVerif.C18.F32Lemmas
+import ScVerif.C18.F32ErrLemmas
 import ScVerif.C18.PropsSeg
 /-!
 # C18 — property theorems, part 9: the magnitudes are float32
@@ -90,6 +91,70 @@ theorem C18_float_rounds_witness :
     sumEdgesF (fun _ => false) [⟨0, 16777216⟩, ⟨0, 1⟩, ⟨0, 1⟩] = [⟨16777216, none⟩] ∧
     sumEdgesF (fun _ => false) [⟨0, 1⟩, ⟨0, 1⟩, ⟨0, 16777216⟩] = [⟨16777218, none⟩] := by
   refine ⟨by decide, by decide, by decide, by decide, by decide⟩
+
+/-! ### The magnitudes beyond the exactness bound: `Sum` in float32 is pointwise addition up to a bounded error -/
+
+/-- The MAGNITUDES of the float `Sum` beyond the exactness bound, as a statement about the step function: for
+ALL lists with non-negative lengths (no bound on the magnitudes), whatever arrangement of equal-time edges the
+unstable sort produces, and at EVERY instant `t`, the float rendering of `Sum` is within
+`2 · (number of edges) · (total of the absolute edge deltas) / 2^24` of the pointwise sum of the arguments' step
+functions — the roundings accumulate at most linearly, each one contributing at most `2^-23` of the total
+absolute magnitude in play.  The number of edges is at most twice the number of segments and the total of the
+absolute deltas at most twice the total of the absolute magnitudes, so the error at any instant is at most
+`(segments) · (total absolute magnitude) · 2^-21`.  This covers the open last element too: whether the float and
+the exact loop keep or drop it (a float residue where the exact tail is zero, or the other way round) is inside
+the bound.  Hypothesis `es.length ≤ 2^23`: more than eight million edges are outside the model (the accumulated
+error could then reach the size of the magnitudes themselves). -/
+theorem C18_sum_float_error (ls : List (List Seg)) (es : List Edge) (h : AllNonNeg ls)
+    (hp : es.Perm (rawEdges ls)) (hs : SortedT es) (hn : es.length ≤ 8388608) (t : Int) :
+    ((den (sumEdgesF (dropRule (anyInfinite ls)) es) t - denSum ls t).natAbs : Int) * 16777216
+        ≤ 2 * (es.length : Int) * absSum (rawEdges ls) ∧
+      es.length ≤ 2 * segCount ls ∧ absSum (rawEdges ls) ≤ 2 * magAbsAll ls := by
+  refine ⟨?_, ?_, absSum_rawEdges_le ls⟩
+  · have e := sumEdgesF_den_err (anyInfinite ls) es hn t
+    rw [C18_sum_any_sort ls es hp hs, C18_sum ls h t, absSum_perm hp] at e
+    exact e
+  · rw [hp.length_eq]; exact rawEdges_length_le ls
+
+/-- … in particular for the arrangement the model's stable sort produces (`sumF`, what the driver runs). -/
+theorem C18_sum_float_error_stable (ls : List (List Seg)) (h : AllNonNeg ls)
+    (hn : (rawEdges ls).length ≤ 8388608) (t : Int) :
+    ((den (sumF ls) t - denSum ls t).natAbs : Int) * 16777216
+      ≤ 2 * ((rawEdges ls).length : Int) * absSum (rawEdges ls) := by
+  have hp : (calcCuts ls).Perm (rawEdges ls) := sortEdges_perm (rawEdges ls)
+  have hl : (calcCuts ls).length = (rawEdges ls).length := hp.length_eq
+  have := (C18_sum_float_error ls (calcCuts ls) h hp (sortEdges_sorted _) (by rw [hl]; exact hn) t).1
+  rw [hl] at this
+  exact this
+
+/-- `SumMagnitude` in float32 beyond the bound: within `2 · n · (total absolute magnitude) / 2^24` of the exact
+total, `n` the number of segments (at most 2^23). -/
+theorem C18_sumMagnitude_float_error (segs : List Seg) (hn : segs.length ≤ 8388608) :
+    ((sumMagnitudeF segs - sumMagnitude segs).natAbs : Int) * 16777216
+      ≤ 2 * (segs.length : Int) * magAbs segs :=
+  sumMagnitudeF_err segs hn
+
+/-- Why the bound carries the number of edges: the roundings do accumulate.  Three rising edges of `1` on top of
+`2^24` at one instant are absorbed one by one — the float result is `2^24` where the pointwise sum is `2^24 + 3`,
+an error of 3 units, three times what a single rounding of the final value could lose (`C18_float_addition_error`:
+at most 1 unit at this size); the bound of `C18_sum_float_error` allows `2·4·(2^24+3)/2^24`, i.e. 8 units. -/
+theorem C18_sum_float_error_accumulates :
+    den (sumEdgesF (fun _ => false) [⟨0, 16777216⟩, ⟨0, 1⟩, ⟨0, 1⟩, ⟨0, 1⟩]) 0 = 16777216 ∧
+    den (sumEdges (fun _ => false) [⟨0, 16777216⟩, ⟨0, 1⟩, ⟨0, 1⟩, ⟨0, 1⟩]) 0 = 16777219 ∧
+    (rnd24 16777219 - 16777219).natAbs = 1 := by
+  refine ⟨by decide, by decide, by decide⟩
+
+/-! Non-vacuity of `C18_sum_float_error`: a rounding input (outside `C18_sum_float`'s bound) satisfies the
+hypotheses, and the bound is not trivially slack there (error 1 unit, bound 2·4·(2^24+2)/2^24 < 9 units). -/
+example : AllNonNeg [[⟨16777216, some 1⟩], [⟨1, some 1⟩]] ∧
+    ¬ 2 * magAbsAll [[⟨16777216, some 1⟩], [⟨1, some 1⟩]] < 16777216 ∧
+    (rawEdges [[⟨16777216, some 1⟩], [⟨1, some 1⟩]]).length = 4 ∧
+    den (sumF [[⟨16777216, some 1⟩], [⟨1, some 1⟩]]) 0 = 16777216 ∧
+    denSum [[⟨16777216, some 1⟩], [⟨1, some 1⟩]] 0 = 16777217 := by
+  refine ⟨?_, by decide, by decide, by decide, by decide⟩
+  intro l hl s hs len hlen
+  simp at hl
+  rcases hl with hl | hl <;> subst hl <;> simp at hs <;> subst hs <;> simp at hlen <;> omega
 
 example : (rawEdges [[⟨0, some 3⟩, ⟨16777216, some 2⟩], [⟨0, some 1⟩, ⟨3, some 1⟩]]).Pairwise (fun x y => x.time ≠ y.time) := by
   decide
